@@ -455,9 +455,36 @@ class Translator:
                     self.emit_ret(s, None)
                 else:
                     raise Untranslatable("%s: control reaches end of non-void function" % name)
+        self.prune(f)
         self.fns[name] = f
         if any(o.size is None for o in f.objs.values()):
             self.helpers[name] = f
+
+    def prune(self, f):
+        """Drop logical variables no event depends on (loaded data bytes, shifted values, ...)."""
+        used = set()
+        for ev in f.events:
+            for k in ("pc", "off", "len", "size", "res", "pos"):
+                if k in ev:
+                    vars_of(ev[k], used)
+            if ev.get("loop"):
+                used.add(ev["loop"]["var"])
+                vars_of(ev["loop"]["hi"], used)
+        for a in getattr(f, "argspec", []):
+            used |= {a.get("len"), a.get("name"), a.get("optional")} - {None, True, False}
+        if getattr(f, "state0", None):
+            used |= {v[1] for v in f.state0}
+        changed = True
+        while changed:
+            changed = False
+            for h in f.hyps:
+                hv = vars_of(h[1])
+                # a hypothesis constrains `used` variables through the others it mentions
+                if hv & used and not hv <= used:
+                    used |= hv
+                    changed = True
+        f.vars = [v for v in f.vars if v[0] in used]
+        f.hyps = [h for h in f.hyps if vars_of(h[1]) <= used]
 
     def bind_self(self, st, pname, tn):
         f = self.f
@@ -663,7 +690,10 @@ class Translator:
         return r
 
     def do_if(self, n, st):
+        saved = self.cur_stmt
+        self.cur_stmt = n
         c = self.cond(n.cond, st)
+        self.cur_stmt = saved
         a = st.fork()
         a.pc = AND(st.pc, c)
         b = st.fork()
@@ -755,7 +785,10 @@ class Translator:
 
     def do_switch(self, n, st):
         A = self.c_ast
+        saved = self.cur_stmt
+        self.cur_stmt = n
         v = self.as_int(self.expr(n.cond, st), st)
+        self.cur_stmt = saved
         out = []
         seen = []
         for c in n.stmt.block_items:
@@ -820,8 +853,9 @@ class Translator:
         if v[0] == "int":
             return NOT(("eq", v[1], C(0)))
         if v[0] in ("unk", "pyobj"):
-            b = self.newvar("ok", 0, 1, "opaque", "result of %s" % self.gen.visit(n)[:50])
-            return ("eq", b, C(1))
+            tag = v[1] if len(v) > 1 and isinstance(v[1], str) else "value"
+            b = self.newvar("fail_" + tag, 0, 1, "opaque", "1 iff %s returned 0 / NULL" % tag)
+            return ("eq", b, C(0))
         raise Untranslatable("%s:%d: condition %s" % (self.file, self.site(), self.gen.visit(n)))
 
     def ptr_test(self, a, b, op, st):
@@ -847,7 +881,8 @@ class Translator:
             else:
                 r = ("F",)
         else:
-            bv = self.newvar("isnull", 0, 1, "opaque", "pointer is NULL")
+            tag = p[1] if len(p) > 1 else "value"
+            bv = self.newvar("fail_" + tag, 0, 1, "opaque", "1 iff %s returned 0 / NULL" % tag)
             r = ("eq", bv, C(1))
         return r if op == "==" else NOT(r)
 
@@ -881,7 +916,9 @@ class Translator:
         raise Untranslatable("cannot render %s" % type(n).__name__)
 
     def opaque(self, lo, hi, doc):
-        return ("int", self.newvar("u", lo, hi, "opaque", doc))
+        nm = re.sub(r"[^A-Za-z0-9]+", "_", doc.replace("&", " and ").replace(">>", " shr ").replace("<<", " shl ").replace("|", " or ").replace("^", " xor ").replace("*", " at ").replace("+", " plus ").replace("-", " minus "))
+        nm = "u_" + nm.strip("_")[:28].strip("_")
+        return ("int", self.newvar(nm, lo, hi, "opaque", doc))
 
     def load(self, st, ptrnode, ptrval, idxnode=None):
         """Read of one byte through a pointer: records the access, returns an opaque byte."""
@@ -1161,15 +1198,15 @@ class Translator:
                 self.access(st, args[1], add(inl, C(blk - 1)), "w", "EVP_CipherUpdate out (inl + block_size - 1)", ct[1],
                             "(%s + %d)" % (c_inl, blk - 1))
             self.set_out_int(st, args[2], 0, None, "outl of EVP_CipherUpdate", upper=inl, blk=CTX_BLOCK[ctx])
-            return ("unk",)
+            return ("unk", fn)
         if fn == "EVP_CipherFinal_ex":
             if args[1][0] != "null":
                 raise Untranslatable("EVP_CipherFinal_ex with an output buffer")
             self.set_out_int(st, args[2], 0, 0, "outl of EVP_CipherFinal_ex")
-            return ("unk",)
+            return ("unk", fn)
         if fn == "EVP_CipherInit_ex":
             if args[3][0] == "null" and args[4][0] == "null":
-                return ("unk",)      # neither key nor iv: no buffer is read
+                return ("unk", fn)      # neither key nor iv: no buffer is read
             ctx = self.ctx_field(argn[0], st)
             if args[3][0] != "null":
                 kl = CTX_KEYLEN[ctx]
@@ -1182,7 +1219,7 @@ class Translator:
                     self.access(st, args[3], C(kl), "r", "EVP_CipherInit_ex key", ct[3], str(kl))
             if args[4][0] != "null":
                 self.access(st, args[4], C(CTX_IVLEN[ctx]), "r", "EVP_CipherInit_ex iv", ct[4], str(CTX_IVLEN[ctx]))
-            return ("unk",)
+            return ("unk", fn)
         if fn == "EVP_CIPHER_CTX_set_key_length":
             try:
                 ctx = self.ctx_field(argn[0], st)
@@ -1205,7 +1242,7 @@ class Translator:
                 self.access(st, args[3], ilen(2), "w", "EVP_CTRL_*_GET_TAG", ct[3], ct[2])
             else:
                 raise Untranslatable("EVP_CIPHER_CTX_ctrl op")
-            return ("unk",)
+            return ("unk", fn)
         if fn in self.helpers or fn in self.fns:
             h = self.fns[fn]
             for (pname, off, ln, kind, what) in h.param_reads:
@@ -1219,7 +1256,7 @@ class Translator:
                 if a[0] == "ptr" and h.params_order[i] not in [p[0] for p in h.param_reads] and a[1] != "self":
                     if self.f.objs[a[1]].name.startswith(("arg:", "field:", "heap")):
                         raise Untranslatable("helper %s receives tracked pointer it is not known to bound" % fn)
-            return ("unk",)
+            return ("unk", fn)
         if fn in NOACCESS:
             for i, a in enumerate(args):
                 if a[0] == "ptr" and i not in CSTRING_PARAMS.get(fn, ()):
@@ -1229,7 +1266,7 @@ class Translator:
                 st.env["$exc"] = self.gen.visit(argn[0])
             if fn == "PyErr_NoMemory":
                 st.env["$exc"] = "PyExc_MemoryError"
-            return ("unk",)
+            return ("unk", fn)
         raise Untranslatable("%s:%d: call to unknown function %s" % (self.file, self.site(), fn))
 
     def ctx_field(self, node, st):
@@ -1573,6 +1610,13 @@ def emit_coq(model):
         w("  " + (" /\\\n  ".join(cq_p(h) for h in hs) if hs else "True") + ".")
         # events
         evs = []
+        pending = None     # (loop dict, guard text, [records])
+        def flush():
+            nonlocal pending
+            if pending:
+                lp, g0, recs = pending
+                evs.append("ELoop %s %d %s (fun %s => [%s])" % (g0, lp["lo"], cq_e(lp["hi"]), lp["var"], "; ".join(recs)))
+                pending = None
         for ev in f.events:
             g = cq_b(ev["pc"])
             if ev["t"] == "acc":
@@ -1580,13 +1624,22 @@ def emit_coq(model):
                     ev["id"], ev["oid"], cq_e(ev["off"]), cq_e(ev["len"]), cq_e(ev["size"]))
                 if ev["loop"]:
                     lp = ev["loop"]
-                    evs.append("ELoop %s %d %s (fun %s => %s)" % (g_noloop(ev, lp), lp["lo"], cq_e(lp["hi"]), lp["var"], rec))
-                else:
-                    evs.append("EAcc %s %s" % (g, rec))
+                    g0 = g_noloop(ev, lp)
+                    if pending and pending[0] is lp and pending[1] == g0:
+                        pending[2].append(rec)
+                    else:
+                        flush()
+                        pending = (lp, g0, [rec])
+                    continue
+                flush()
+                evs.append("EAcc %s %s" % (g, rec))
             elif ev["t"] == "rej":
+                flush()
                 evs.append("ERej %s %d %s" % (g, exc_code(ev["exc"]), cq_e(ev["pos"])))
             else:
+                flush()
                 evs.append("ERet %s %s %s" % (g, cq_e(ev["res"]), cq_e(ev["pos"])))
+        flush()
         w("Definition ev_%s %s : list ev :=" % (name, tbinder))
         w("  [ " + ";\n    ".join(evs) + " ]." if evs else "  [].")
         # VCs
@@ -1623,7 +1676,7 @@ def emit_coq(model):
         w("Lemma safe_%s : forall %s, R_%s %s -> K_%s %s -> events_safe (ev_%s %s)." % (
             name, binder or "(_ : unit)", name, binder, name, binder, name, binder))
         ks = " ".join("vcprop_%s_%d" % (name, n) for n in clauses)
-        w("Proof. unfold events_safe, R_%s, K_%s, ev_%s%s; intros; repeat apply Forall_cons; try apply Forall_nil; unfold ev_safe, acc_ok; cbn [a_off a_len a_size]; cbv beta; first [ exact I | intros Hg iloop Hloop; repeat match goal with H : _ /\\ _ |- _ => destruct H end; repeat match goal with H : (forall x : Z, _) |- _ => specialize (H iloop) end; lia | intros; lia ]. Qed."
+        w("Proof. unfold events_safe, R_%s, K_%s, ev_%s%s; intros; repeat apply Forall_cons; try apply Forall_nil; unfold ev_safe, acc_ok; cbn [a_off a_len a_size]; cbv beta; first [ exact I | intros Hg iloop Hloop; repeat match goal with H : _ /\\ _ |- _ => destruct H end; repeat match goal with H : (forall x : Z, _) |- _ => specialize (H iloop) end; repeat apply Forall_cons; try apply Forall_nil; cbv beta; cbn [a_off a_len a_size]; lia | intros; lia ]. Qed."
           % (name, name, name, (", " + ks.replace(" ", ", ")) if ks else ""))
         # invariant at returns / pos at rejections (Buffer)
         if f.is_buffer_method:
